@@ -30,6 +30,8 @@ by computing `MD` against a *claimed* reference that differs from the true one a
 that site.  `random_alignment` draws free-form alignments (random CIGAR) for the
 code -> spec direction, where an independent SAM walker (`samwalk`) abstracts them.
 
+Generated reads always have at least two aligned bases (pysam 0.24's
+`AlignedSegment.qual` returns garbage for 1-base reads read back from a BAM).
 Coordinates are 0-based half-open everywhere except in the SAM text.
 Nothing here imports mchap.
 """
@@ -407,6 +409,12 @@ def realise(a, geom, rng, min_qual=30, max_qual=40, plain=False, allow_clips=Tru
         e_lo = geom.sites[hi] + 1
     e_hi = min(next_site, geom.sites[hi] + 10, len(ref))
     e = rng.randint(e_lo, max(e_lo, e_hi))
+    if e - s < 2:
+        # pysam 0.24 returns garbage from AlignedSegment.qual for 1-base reads: never generate them
+        if e < min(next_site, len(ref)):
+            e += 1
+        else:
+            s -= 1
     return _build(a, geom, rng, flag, s, e, dele, min_qual, max_qual, plain, "cover", allow_clips, allow_indels)
 
 
@@ -653,6 +661,8 @@ def random_alignment(rng, geom, qname, rg, length=(12, 40), flag_probs=None, map
     cigar = ([("H", rng.randint(1, 4))] if rng.random() < 0.08 else []) + ([("S", len(lead))] if lead else []) + cig + (
         [("S", len(trail))] if trail else []) + ([("H", rng.randint(1, 4))] if rng.random() < 0.08 else [])
     full = lead + core + trail
+    if len(full) < 2:  # see module docstring (1-base reads)
+        return random_alignment(rng, geom, qname, rg, length, flag_probs, mapqs, wrong_md_prob, min_qual, max_qual, snp_bases)
     qual = [rng.randint(min_qual, max_qual) for _ in full]
     return Aln(qname, flag, geom.contig, s, rng.choice(mapqs), cigar, full, qual, rg, md, note="random")
 
